@@ -2,7 +2,8 @@
 
 The sidecars bind invariants to loops by ordinal.  A later edit that adds, removes or reorders loops would silently attach an
 invariant to a different loop and the failing inv.* obligations would be reported as a property violation although only the
-binding broke.  verify_function compares the recorded headers with the current source and reports a *binding failure*
+binding broke.  verify_function compares the number of loops and the loop variable of every loop that carries an invariant with the
+current source (a changed bound or iterable is left to the invariants) and reports a *binding failure*
 (undecided by proof, the bounded stand-in decides) instead.  Re-run this script after editing a sidecar:  python3-vt gen_loop_heads.py
 It is never run by a check."""
 import ast, importlib, json, sys
